@@ -971,6 +971,26 @@ def enum_cases(tier):
             w = twin(tname, c['v'], ch, lead=(1, 2, 99)[i % 3])
             if w is not None:
                 yield {'type': tname, 'v': w, 'tail': gen_tail(ch, tname, w)}
+    # low-entropy hashes: a frozen account (and a shard account around it) whose state hash is one byte repeated, for every byte value,
+    # with small non-zero counters and balances of every byte length: bit patterns that a reader which PROBES for a newer layout (or
+    # for another constructor) behind an ambiguous prefix can mistake for well-formed fields; random hashes line up once in 2^8..2^16
+    for blen in range(1, 16):
+        for pc in (1, 7, 200):
+            for v8 in range(256):
+                if tier == 'quick' and (v8 & 7 or (blen + pc) % 2):      # quick: the patterns whose low bits look like tags / empty Maybes
+                    continue
+                val = {'_': 'account',
+                       'addr': {'_': 'addr_std', 'anycast': None, 'workchain_id': 0, 'address': '%064x' % (blen * 257 + pc)},
+                       'storage_stat': {'_': 'storage_info', 'used': {'_': 'storage_used', 'cells': 21, 'bits': 5000, 'public_cells': pc},
+                                        'last_paid': 1700000000 + v8, 'due_payment': None},
+                       'storage': {'_': 'account_storage', 'last_trans_lt': 47000000 + pc,
+                                   'balance': {'_': 'currencies', 'grams': (1 << (8 * blen - 1)) + 200, 'other': {'_': 'extra_currencies', 'dict': []}},
+                                   'state': {'_': 'account_frozen', 'state_hash': ('%02x' % v8) * 32}}}
+                try:
+                    R.encode(X.Account, val)
+                except R.ModelError:
+                    continue
+                yield {'type': 'Account', 'v': val, 'tail': {'bits': '', 'nrefs': 0}}
     # extremes and hash-chosen values of every type
     for tname in TYPES:
         t = getattr(S, tname)
